@@ -36,6 +36,8 @@ LEVEL = "exploration"
 TECHNIQUE = ("deterministic simulation: seeded interleaving of channel operations and per-direction FIFO message delivery "
              "between two real SSHConnection services; independent window ledger over the message log")
 QUICK_RUNS = 24000
+TWIN_P = 0.08   # this share of the runs drives two independent instances of the scenario one after the other (detsim.runner._run_scenario)
+USES_DEPTH = True   # thorough tier: history length bound scales with sim.depth (1..3) beyond the quick tier\'s run indices
 # watchdog only (runs are step-capped): generous because a full GC pass in a freshly forked worker on a loaded 16-way box was seen to stall a run for >20 s wall
 RUN_WALL_LIMIT_S = 120
 BATCH = 50
@@ -386,7 +388,7 @@ def run(sim):
     w.cfg = {"nchan": nchan, "ext_types": ext_types, "allow_window_1": tiny_window, "hunt_close_ext": hunt_close_ext, "big_writes": big, "lose_weight": lose_w,
              "echo": sim.draw_bool(0.2, "echo_app"), "write_on_start": sim.draw_bool(0.2, "write_on_start")}
     sim.config = dict(w.cfg)
-    nsteps = sim.draw_int(8, 70, "nsteps")
+    nsteps = sim.draw_int(8, 70 * sim.depth, "nsteps")
     opened = 0
 
     def writers():
@@ -407,7 +409,7 @@ def run(sim):
         return sim.draw_int(0, 12, "len")
 
     for _ in range(nsteps):
-        sim.step(400)
+        sim.step(400 * sim.depth)
         ws = writers()
         ops = []
         ops.append(("net", 8 if (w.queue["A"] or w.queue["B"]) else 0))
@@ -453,7 +455,7 @@ def run(sim):
     n = 0
     while w.queue["A"] or w.queue["B"]:
         n += 1
-        sim.step(4000)
+        sim.step(4000 * sim.depth)
         side = sim.draw_choice([s for s in "AB" if w.queue[s]], "dir")
         w.deliver(side)
         sim.state(w.abstract_state())
